@@ -265,7 +265,11 @@ impl Scenario for ActorScen {
                 shut = true;
             }
             let is_read = matches!(req, Req::GetExact { .. } | Req::GetState { .. } | Req::GetPolicy { .. } | Req::GetPeers { .. } | Req::HasNews { .. } | Req::ListDocs | Req::ListAuthors | Req::Hashes | Req::ExportAuthor { .. });
-            if is_read && rng.chance(1, 5) {
+            // a caller may give up on any request (drop the reply receiver while it is still queued):
+            // reads often, state-changing requests now and then - those must still take effect,
+            // later replies reflect all earlier requests whether or not somebody waited for them
+            let gives_up = if is_read { rng.chance(1, 5) } else { !matches!(req, Req::Shutdown | Req::GetMany { .. } | Req::Drop { .. }) && rng.chance(1, 10) };
+            if gives_up {
                 steps.push(AStep::SendDropReply { client, req });
             } else {
                 steps.push(AStep::Send { client, req });
@@ -947,6 +951,9 @@ async fn run(plan: &ActorPlan, cx: &mut Cx, cap_focus: bool, removal_focus: bool
                     Poll::Pending => {
                         if drop_reply {
                             cx.fault("reply_receiver_dropped_before_answer");
+                            if !matches!(req, Req::GetExact { .. } | Req::GetState { .. } | Req::GetPolicy { .. } | Req::GetPeers { .. } | Req::HasNews { .. } | Req::ListDocs | Req::ListAuthors | Req::Hashes | Req::ExportAuthor { .. }) {
+                                cx.probe("caller_gave_up_on_a_state_changing_request");
+                            }
                             drop(fut);
                         } else {
                             pending.push(Pending { idx, req: req.clone(), fut, expect });
